@@ -812,6 +812,24 @@ def sync_table(src):
             rows.append((name, mm.group(1), args == pnames))
     return rows
 
+
+def exc_consts(src):
+    """ExceptionResponse::try_from, ResponsePdu::try_from, encode_exception_response_pdu, response_result_pdu_size: their shapes and constants"""
+    dec = "".join(block_after(block_after(src, r"impl\s+TryFrom<Bytes>\s+for\s+ExceptionResponse\s*\{"), r"fn\s+try_from\s*\(").split())
+    m1 = re.fullmatch(r"letmutrdr=Cursor::new\(&bytes\);letfn_err_code=rdr\.read_u8\(\)\?;iffn_err_code<(0x[0-9A-Fa-f]+)\{returnErr\(Error::new\(ErrorKind::InvalidData,[^;]*\)\);\}"
+                      r"letfunction=fn_err_code-(0x[0-9A-Fa-f]+);letexception=ExceptionCode::new\(rdr\.read_u8\(\)\?\);Ok\(ExceptionResponse\{function:FunctionCode::new\(function\),exception,\}\)", dec)
+    disp = "".join(block_after(block_after(src, r"impl\s+TryFrom<Bytes>\s+for\s+ResponsePdu\s*\{"), r"fn\s+try_from\s*\(").split())
+    m2 = re.fullmatch(r"letfn_code=Cursor::new\(&bytes\)\.read_u8\(\)\?;letpdu=iffn_code<(0x[0-9A-Fa-f]+)\{Response::try_from\(bytes\)\?\.into\(\)\}else\{ExceptionResponse::try_from\(bytes\)\?\.into\(\)\};Ok\(pdu\)", disp)
+    enc = "".join(block_after(src, r"fn\s+encode_exception_response_pdu\s*\(").split())
+    m3 = re.fullmatch(r"usecrate::bytes::BufMutas_;debug_assert!\(response\.function\.value\(\)<(0x[0-9A-Fa-f]+)\);buf\.put_u8\(response\.function\.value\(\)\+(0x[0-9A-Fa-f]+)\);buf\.put_u8\(response\.exception\.into\(\)\);", enc)
+    size = "".join(block_after(src, r"fn\s+response_result_pdu_size\s*\(").split())
+    m4 = re.fullmatch(r"matchres\{Ok\(response\)=>response_pdu_size\(response\),Err\(_\)=>Ok\((\d+)\),\}", size)
+    rr = "".join(block_after(src, r"fn\s+encode_response_result_pdu\s*\(").split())
+    m5 = re.fullmatch(r"matchres\{Ok\(response\)=>encode_response_pdu\(buf,response\),Err\(response\)=>encode_exception_response_pdu\(buf,\*response\),\}", rr)
+    if not (m1 and m2 and m3 and m4 and m5):
+        raise Skip("exception response helpers changed shape (%s)" % ",".join(n for n, m in (("decode", m1), ("dispatch", m2), ("encode", m3), ("size", m4), ("result", m5)) if not m))
+    return (num(m1.group(1)), num(m1.group(2)), num(m2.group(1)), num(m3.group(1)), num(m3.group(2)), int(m4.group(1)))
+
 # ------------------------------------------------------------------ emit
 def s2l(name):
     return 's2l "%s"' % name
@@ -923,6 +941,7 @@ def main():
           lambda rows: "[" + "; ".join("(%s, (%s, %s))" % (s2l(a), s2l(b), r) for a, b, r in rows) + "]")
     piece("gen_sync_table", "list sync_row", "map (fun n => (n, (n, true))) sync_methods", lambda: sync_table(syncsrc),
           lambda rows: "[" + "; ".join("(%s, (%s, %s))" % (s2l(a), s2l(b), "true" if ok else "false") for a, b, ok in rows) + "]")
+    piece("gen_EXC", "N * N * N * N * N * N", "(128, 128, 128, 128, 128, 2)", lambda: exc_consts(codec), lambda t: "(%d, %d, %d, %d, %d, %d)" % t)
     piece("gen_LEN_MAX", "N * N", "(65535, 255)", lambda: len_helpers(codec), lambda t: "(%d, %d)" % t)
     os.makedirs(os.path.dirname(OUT), exist_ok=True)
     new = "\n".join(out) + "\n"
